@@ -10,7 +10,7 @@ emit(forest, xml) -> (text, elements) where elements is the list of element reco
   dict(name, start, end, open=(s,e), close=(s,e)|None, attrs=[(name, ns, ne, raw, vs, ve)], children=[indices], parent=index|None)
 """
 
-PAIRED = ['div', 'x:y-z', 'tpl']      # a plain name, a name with colon and dash, and the non-special script template
+PAIRED = ['div', 'x:\u00f6-\u00d6', 'tpl']      # a plain name; a name with colon, dash and letters at the upper end of a NameChar range (o-umlaut, O-umlaut); the non-special script template
 LEAVES = ['br', 'x/', 'comment', 'cdata', 'pi', 'script', 'style', 'text', 'y /', 'script/']
 LEAVES_SMALL = ['br', 'x/', 'comment', 'script', 'text', 'cdata']
 
@@ -104,7 +104,7 @@ def element_paths(forest, prefix=()):
     "paths of nodes that are elements able to carry attributes"
     out = []
     for i, (kind, ch, attrs) in enumerate(forest):
-        if kind in ('div', 'x:y-z', 'br', 'x/', 'y /'):
+        if kind in ('div', PAIRED[1], 'br', 'x/', 'y /'):
             out.append(prefix + (i,))
         if ch:
             out += element_paths(ch, prefix + (i,))
@@ -121,7 +121,9 @@ def with_attrs(forest, path, attrs):
     return forest[:i] + [node] + forest[i + 1:]
 
 
-def emit(forest, xml=False, body=None):
+def emit(forest, xml=False, body=None, tpl_plain=False):
+    """tpl_plain: the template element is written as a bare <script> (no type): an element with markup children only for a
+    caller who passes an empty `special` table"""
     BODY = body or globals()['BODY']
     out = []
     elements = []
@@ -187,7 +189,7 @@ def emit(forest, xml=False, body=None):
             rec['close'] = (s, pos[0])
         else:
             name = 'script' if kind == 'tpl' else kind
-            a = ([('type', '"text/x-template"')] if kind == 'tpl' else []) + list(attrs)
+            a = ([('type', '"text/x-template"')] if kind == 'tpl' and not tpl_plain else []) + list(attrs)
             rec['name'] = name
             rec['open'], rec['attrs'] = open_tag(name, a)
             for c in ch:
